@@ -64,6 +64,10 @@ def run(ctx):
                          "mu": [str(Fraction(ctx.rng.randint(-64, 64), 8)) for _ in range(n)],
                          "x": [str(Fraction(ctx.rng.randint(-256, 256), 8)) for _ in range(n)],
                          "logdet": str(Fraction(ctx.rng.randint(-4000, 4000), 4))})
+            if len(kern) % 6 == 0:
+                # a window that IS its cluster's mean (a one-window cluster, a cluster of identical windows): the
+                # quadratic form is exactly zero and the value is the peak of the density
+                kern[-1]["x"] = list(kern[-1]["mu"])
         grid_n = (1, 2, 7, 40, 100, 200) if ctx.quick() else (1, 2, 3, 7, 20, 40, 80, 100, 150, 200)
         # the edges of the double range for det and for sqrt(det) (a Cholesky diagonal product): smallest subnormal
         # 2^-1074 (log -744.4), smallest normal 2^-1022 (log -708.4), largest 2^1024 (log 709.8) - and twice those
